@@ -15,6 +15,7 @@ import common
 from common import log
 
 PID = "C06"
+from c06_hostile import HOSTILE  # noqa: E402
 
 
 def work(n):
@@ -91,6 +92,10 @@ DEATH = {
     "recursion-through-valueOf": "let n = 20000; const o = { valueOf() { return n-- <= 0 ? 0 : (o + 1); } }; o + 0",
     "recursion-through-sort": "function f(n) { return n === 0 ? 0 : [2, 1].sort((a, b) => { f(n - 1); return a - b; })[0]; } f(20000)",
     "json-stringify-deep": "let o = {}; let c = o; for (let i = 0; i < 200000; i++) { c.x = {}; c = c.x; } JSON.stringify(o).length",
+    "cyclic-structuredClone": "const o = {}; o.self = o; structuredClone(o) === o",
+    "cyclic-array-as-key": "const a = [1]; a[0] = a; Reflect.get({}, a)",
+    "cyclic-array-flat": "const a = [1, [2]]; a[1][1] = a; a.flat(Infinity).length",
+    "cyclic-proxy-get-receiver": "const p = new Proxy({}, { get(t, k, r) { return r[k]; } }); p.x",
     "array-huge-length": "new Array(4294967295).fill(1).length",
     "repeat-huge": "'x'.repeat(2 ** 33).length",
     "padStart-huge": "'x'.padStart(2 ** 33, 'ab').length",
@@ -125,7 +130,10 @@ def run(chk):
         res = common.run_programs(chk.th, [("replay", "path=/m.ts", r["program"])], tag="c06r", mem_limit=6_000_000_000)
         v = res.get("replay", {})
         log(json.dumps({k: v.get(k) for k in ("status", "value", "max_work_per_step", "exit")}))
-        if v.get("max_work_per_step", 0) != 1 or (v.get("hooks") or {}).get("max_run_depth", 0) != 0:
+        if "probe" in r:
+            if v.get("status") not in ("complete", "error", "steplimit"):
+                chk.violation(r)
+        elif v.get("max_work_per_step", 0) != 1 or (v.get("hooks") or {}).get("max_run_depth", 0) != 0:
             chk.violation(r)
         return chk.finish()
     sizes = (30, 700) if chk.tier == "quick" else (30, 700, 20000)
@@ -173,6 +181,19 @@ def run(chk):
             chk.violation({"program": src, "expected": ALIVE[k][1],
                            "observed": {x: v.get(x) for x in ("status", "value", "class", "message", "exit", "max_work_per_step", "max_call_depth")},
                            "what": "deep script recursion / long loop must be driven one instruction per step without consuming native stack"})
+    # stream H: re-entrant callbacks that mutate the object the native is working on
+    hprogs = [("H:" + k, "path=/m.ts steps=5000000", src) for k, src in HOSTILE.items()]
+    hres = common.run_programs(chk.th, hprogs, tag="c06h", timeout=900, per_program_timeout=120, mem_limit=6_000_000_000)
+    stats["hostile"] = 0
+    for name, _, src in hprogs:
+        v = hres.get(name, {})
+        stats["programs"] += 1
+        stats["hostile"] += 1
+        if v.get("status") not in ("complete", "error", "steplimit"):
+            chk.violation({"probe": name[2:], "program": src,
+                           "observed": {x: v.get(x) for x in ("status", "class", "message", "exit")},
+                           "what": "a callback that mutates the object its calling native is working on took the host down "
+                                   "(panic or process death) instead of producing a value or a catchable exception"})
     # what the model only locates: process deaths through re-entry and unchecked allocation sizes
     dprogs = [("D:" + k, "path=/m.ts steps=200000000", src) for k, src in DEATH.items()]
     dres = common.run_programs(chk.th, dprogs, tag="c06c", timeout=900, per_program_timeout=300, mem_limit=6_000_000_000)
@@ -185,7 +206,7 @@ def run(chk):
         if st in ("died", "panic"):
             stats["deaths"] += 1
             deaths[k] = v.get("exit", st)
-            known_hit.add("E2-native-stack-overflow" if k.startswith(("recursion", "json")) else "E3-unchecked-allocation-size")
+            known_hit.add("E2-native-stack-overflow" if k.startswith(("recursion", "json", "cyclic")) else "E3-unchecked-allocation-size")
         elif st == "error" and v.get("class") in ("RangeError", "InternalError", "TypeError"):
             chk.stale_known.append("%s now surfaces as a catchable %s" % (k, v.get("class")))
         elif st in ("complete", "steplimit"):
@@ -207,6 +228,7 @@ def run(chk):
         "rule": "%d trampolined and %d re-entering call paths x loop sizes %s, deep-recursion and long-loop programs, resource-exhaustion probes "
                 "in a memory-limited worker; hook counters compared with the model's prediction" % (
                     len(paths(1)[0]), len(paths(1)[1]), list(sizes)),
+        "hostile_callback_programs": stats.get("hostile", 0),
         "trampolined_paths_checked": stats["trampolined_checked"], "reentering_paths_checked": stats["reentering_checked"],
         "worker_deaths_observed": deaths,
     })
